@@ -11,6 +11,8 @@ unspecified), ids outside [A-Za-z0-9_-].
 from __future__ import annotations
 
 import copy
+import re
+import zlib
 import math
 from decimal import Decimal
 from dataclasses import dataclass, field
@@ -68,6 +70,48 @@ def _esc(v: str) -> str:
     return str(v).replace("&", "&amp;").replace("<", "&lt;").replace('"', "&quot;")
 
 
+# values that would hide or change the element if they won over the real declaration that follows them
+_LOSING = {"fill": "none", "stroke": "none", "stroke-width": "0", "opacity": "0", "fill-opacity": "0", "stroke-opacity": "0",
+           "display": "none", "fill-rule": "evenodd", "clip-rule": "evenodd", "stroke-dasharray": "1 9", "stroke-linecap": "square",
+           "stroke-linejoin": "bevel", "stop-color": "#000", "stop-opacity": "0", "clip-path": "none"}
+
+
+def _style_text(decls) -> str:
+    """The style attribute for a dict of declarations, in one of several legal spellings chosen by a checksum of
+    the declarations (a pure function of the node, so no random draw is spent and replay is exact): plain; a
+    property declared twice, the losing value first (CSS: the last declaration wins); a vendor property such as
+    -inkscape-stroke in front (not a valid XML name, to be skipped without losing what follows); blanks around
+    ':' and ';' and a trailing semicolon."""
+    items = list(decls.items())
+    h = zlib.crc32(repr(items).encode())
+    pre = []
+    if h % 4 == 0:
+        k, v = items[(h >> 4) % len(items)]
+        lose = _LOSING.get(k)
+        if lose is not None and lose != v and not (k in ("fill-rule", "clip-rule") and v == "evenodd"):
+            pre.append((k, lose))
+    if (h >> 8) % 5 == 0:
+        pre.insert(0, ("-inkscape-stroke", "none"))
+    sep, col, tail = ";", ":", ""
+    if (h >> 12) % 4 == 0:
+        sep, col, tail = " ; ", " : ", " ;"
+    elif (h >> 12) % 4 == 1:
+        tail = ";"
+    return sep.join(f"{k}{col}{v}" for k, v in pre + items) + tail
+
+
+_STYLE_REPEAT_RE = re.compile(r'style="(?:[^"]*;)?\s*([a-z-]+)\s*:[^;"]*;(?:[^"]*;)?\s*\1\s*:')
+
+
+def style_spelling_feats(text: str):
+    f = []
+    if _STYLE_REPEAT_RE.search(text):
+        f.append("style-repeated-property")
+    if "-inkscape-stroke" in text:
+        f.append("style-vendor-property-first")
+    return f
+
+
 def serialize(n, root=False, extra_ns: str = "", prolog: str = "") -> str:
     """Special tags: '#comment' / '#pi' / '#raw' (text given in n['a']['text']) for noise insertion."""
     tag = n["tag"]
@@ -79,7 +123,7 @@ def serialize(n, root=False, extra_ns: str = "", prolog: str = "") -> str:
         return n["a"]["text"]
     attrs = dict(n["a"])
     if n["s"]:
-        attrs["style"] = ";".join(f"{k}:{v}" for k, v in n["s"].items())
+        attrs["style"] = _style_text(n["s"])
     parts = [prolog, f"<{tag}"]
     if root:
         parts.insert(1, "".join(serialize(x) for x in n.get("_before", ())))  # comments / PIs between prolog and root
@@ -684,7 +728,8 @@ def _gen_gradient(draw, cx):
 @st.composite
 def document(draw, cfg: Cfg, hook=None, root_hook=None):
     root, feat = draw(document_ast(cfg, hook, root_hook))
-    return {"svg": serialize(root, root=True), "feat": feat}
+    text = serialize(root, root=True)
+    return {"svg": text, "feat": sorted(set(feat) | set(style_spelling_feats(text)))}
 
 
 @st.composite
